@@ -594,9 +594,10 @@ def cli_equivalence(tier):
             # --- export-geometry, explicit and guessed formats
             for fmt, ext, writer in (('geojson', '.geojson', geom_ops.write_geojson), ('geojson', '.json', geom_ops.write_geojson),
                                      ('wkt', '.wkt', geom_ops.write_wkt), ('wkb', '.wkb', geom_ops.write_wkb)):
-                for explicit in (False, True):
-                    out_cli = os.path.join(work, f'{name}-geom-cli-{int(explicit)}{ext}')
-                    argv = ['export-geometry', src, out_cli] + (['-f', fmt] if explicit else [])
+                for explicit in (False, True, 'auto', 'auto-long'):
+                    out_cli = os.path.join(work, f'{name}-geom-cli-{explicit}{ext}')
+                    # (the documented choice 'auto' written out means what leaving the option out means)
+                    argv = ['export-geometry', src, out_cli] + ({False: [], True: ['-f', fmt], 'auto': ['-f', 'auto'], 'auto-long': ['--format', 'auto']}[explicit])
                     status = run_main(argv)
                     out_lib = os.path.join(work, f'{name}-geom-lib{ext}')
                     writer(emsarray.open_dataset(src), out_lib)
@@ -621,7 +622,8 @@ def cli_equivalence(tier):
                 V(f'cli:export:{name}', 'unknown output format ends with a non-zero exit status', f'exit status {status}')
             # --- extract-points
             pts = [p.representative_point() for p in polys[:3]]
-            rows = [(p.x, p.y, f'n{k}') for k, p in enumerate(pts)]
+            # (text columns are carried through as they are written: leading blanks, a cell of blanks only)
+            rows = [(p.x, p.y, (' n0', 'n1 ', '  ')[k % 3]) for k, p in enumerate(pts)]
             miss = rows[:1] + [(-170.0, -80.0, 'far')] + rows[1:]
             for label, table, policies in (('hits', rows, ('error', 'drop', 'fill')), ('miss', miss, ('error', 'drop', 'fill'))):
                 csv = os.path.join(work, f'{name}-{label}.csv')
@@ -647,6 +649,10 @@ def cli_equivalence(tier):
                         if lib_ds[v].dtype.kind == 'f':
                             if v not in got or not numpy.allclose(got[v].values, lib_ds[v].values, equal_nan=True):
                                 V(f'cli:extract:{name}:{label}:{policy}', 'extract-points output equals extract_dataframe', f'variable {v} differs')
+                        elif lib_ds[v].dtype.kind in 'OUS':
+                            if v not in got or [str(x) for x in got[v].values] != [str(x) for x in lib_ds[v].values]:
+                                V(f'cli:extract:{name}:{label}:{policy}', 'extract-points output equals extract_dataframe',
+                                  f'text variable {v} differs: {list(got[v].values) if v in got else None!r} != {list(lib_ds[v].values)!r}')
                     if list(got['point'].values) != list(lib_ds['point'].values):
                         V(f'cli:extract:{name}:{label}:{policy}', 'extract-points output equals extract_dataframe', 'point labels differ')
                     got.close()
